@@ -45,40 +45,45 @@ pub enum Event {
 }
 
 impl Event {
-    fn hash(&self, h: &mut Fnv) {
+    /// `anon`: leave out everything that depends on the position of the instance in the run
+    /// (instance number, instance bits of fault tags), so that the per-instance fingerprint of
+    /// an instance is the same alone and next to others.
+    fn hash(&self, h: &mut Fnv, anon: bool) {
+        let id = |i: &u32| if anon { 0u64 } else { *i as u64 };
+        let tg = |t: u64| if anon { crate::stub::tag_call(t) } else { t };
         match self {
             Event::Builder { inst, op, outcome, .. } => {
                 h.u8(1);
-                h.u64(*inst as u64);
+                h.u64(id(inst));
                 h.u8(op.code());
                 h.u64(op.arg_bits());
                 h.u8(outcome.code());
             }
             Event::Bounds { inst, min, max } => {
                 h.u8(2);
-                h.u64(*inst as u64);
+                h.u64(id(inst));
                 h.u64(min.map(|v| v.to_bits()).unwrap_or(1));
                 h.u64(max.map(|v| v.to_bits()).unwrap_or(1));
             }
             Event::Deriv { inst, call, t, fail } => {
                 h.u8(3);
-                h.u64(*inst as u64);
+                h.u64(id(inst));
                 h.u64(*call);
                 h.u64(t.to_bits());
-                h.u64(fail.unwrap_or(0));
+                h.u64(fail.map(tg).unwrap_or(0));
             }
             Event::Poll { inst, poll, ret } => {
                 h.u8(4);
-                h.u64(*inst as u64);
+                h.u64(id(inst));
                 h.u64(*poll);
-                hash_ret(ret, h);
+                hash_ret(ret, h, anon);
             }
             Event::Collect { inst, mode, ok_items, ret } => {
                 h.u8(5);
-                h.u64(*inst as u64);
+                h.u64(id(inst));
                 h.bytes(mode.as_bytes());
                 h.u64(ok_items.unwrap_or(u64::MAX));
-                hash_ret(ret, h);
+                hash_ret(ret, h, anon);
             }
         }
     }
@@ -149,7 +154,7 @@ impl Event {
     }
 }
 
-fn hash_ret(ret: &PollRet, h: &mut Fnv) {
+fn hash_ret(ret: &PollRet, h: &mut Fnv, anon: bool) {
     match ret {
         PollRet::Ok(t) => {
             h.u8(1);
@@ -159,7 +164,7 @@ fn hash_ret(ret: &PollRet, h: &mut Fnv) {
             h.u8(2);
             h.u8(c.code());
             for t in tags {
-                h.u64(*t);
+                h.u64(if anon { crate::stub::tag_call(*t) } else { *t });
             }
         }
         PollRet::None => h.u8(3),
@@ -189,10 +194,10 @@ pub struct RunLog {
 impl RunLog {
     fn push(&mut self, e: Event) {
         self.seq += 1;
-        e.hash(&mut self.fp);
+        e.hash(&mut self.fp, false);
         let i = e.inst() as usize;
         if i < self.inst_fp.len() {
-            e.hash(&mut self.inst_fp[i]);
+            e.hash(&mut self.inst_fp[i], true);
         }
         if let Some(v) = self.events.as_mut() {
             v.push(e);
@@ -265,6 +270,9 @@ pub struct InstSummary {
     pub poll_calls: Vec<u32>,
     /// 0 = Ok item, 1 = None, 2 = Err
     pub poll_kinds: Vec<u8>,
+    /// what next() returned, call after call (only when requested)
+    pub items: Vec<ItemRec>,
+    pub adapter_mismatch_no_fault: bool,
     pub fp: u64,
 }
 
@@ -348,10 +356,16 @@ struct InstRt {
     max_polls: u64,
     extra_polls: u64,
     rec_polls: bool,
+    rec_items: bool,
+    /// for adapter drives: the item sequence of a next()-driven shadow run of this instance
+    shadow: Option<Vec<ItemRec>>,
+    cursor: Cell<usize>,
 }
 
 #[derive(Default)]
 struct Oracle {
+    adapter_mismatch_no_fault: bool,
+    items: Vec<ItemRec>,
     polls: u64,
     ok_items: u64,
     err_seen: bool,
@@ -405,8 +419,14 @@ fn judge_err(rt: &InstRt, ctx: &Ctx, e: &bacon_sci::ivp::IVPError, o: &mut Oracl
         o.ended_by = Some(EndedBy::SolverErr(class));
         return PollRet::Err(class, tags);
     }
-    let carried = fired.iter().position(|t| found.carries(rt.payload, *t));
-    match carried {
+    // "carrying that error": the Err item is the UserError variant and the boxed error it holds
+    // is the very object the derivative returned (any of the failing calls made so far)
+    let direct = match e {
+        bacon_sci::ivp::IVPError::UserError(b) => fired.iter().position(|t| crate::stub::is_original(b.as_ref(), rt.payload, *t)),
+        _ => None,
+    };
+    let reachable = fired.iter().any(|t| found.carries(rt.payload, *t));
+    match direct {
         Some(i) => {
             if i != 0 {
                 o.surfaced_not_first = true;
@@ -414,7 +434,18 @@ fn judge_err(rt: &InstRt, ctx: &Ctx, e: &bacon_sci::ivp::IVPError, o: &mut Oracl
             o.ended_by = Some(EndedBy::UserErr);
         }
         None => {
-            if fired.iter().any(|t| found.text.contains(t)) {
+            if reachable {
+                ctx.violate(
+                    "payload-wrapped",
+                    rt.idx,
+                    format!(
+                        "the Err item ({}) does not hold the {} error object returned by the derivative at call {} but something that wraps it (it is reachable only through source()); a caller matching IVPError::UserError(e) and downcasting e no longer finds its error",
+                        class.name(),
+                        rt.payload.name(),
+                        crate::stub::tag_call(fired[0])
+                    ),
+                );
+            } else if fired.iter().any(|t| found.text.contains(t)) {
                 ctx.violate(
                     "payload-lost",
                     rt.idx,
@@ -590,6 +621,10 @@ fn poll_once(rt: &Rc<InstRt>, ctx: &Rc<Ctx>) {
     if was_ended {
         o.polls_after_end += 1;
     }
+    if rt.rec_items {
+        let r = rec_of(&ret);
+        o.items.push(r);
+    }
     if rt.rec_polls {
         let calls = rt.stub.borrow().calls;
         o.poll_calls.push(calls.min(u32::MAX as u64) as u32);
@@ -625,6 +660,16 @@ fn collect_once(rt: &Rc<InstRt>, ctx: &Rc<Ctx>, consume: bool) {
     let mut o = rt.o.borrow_mut();
     let (ok_items, ret) = match r {
         Ok(Ok(n)) => {
+            if o.err_seen && n > 0 {
+                ctx.violate(
+                    "item-after-err",
+                    rt.idx,
+                    format!("{} returned {} further Ok item(s) from an iterator that had already yielded an Err", mode, n),
+                );
+            }
+            if o.done_seen && n > 0 {
+                o.extra_some_after_done += n as u64;
+            }
             o.ok_items += n as u64;
             judge_none(rt, ctx, &mut o);
             (Some(n as u64), PollRet::None)
@@ -639,6 +684,126 @@ fn collect_once(rt: &Rc<InstRt>, ctx: &Rc<Ctx>, consume: bool) {
     }
     drop(o);
     ctx.log.borrow_mut().push(Event::Collect { inst: rt.idx, mode, ok_items, ret });
+}
+
+/// `it.nth(0)` instead of `it.next()`: same contract, different trait method.
+fn nth_once(rt: &Rc<InstRt>, ctx: &Rc<Ctx>) {
+    let mut guard = match rt.iter.try_borrow_mut() {
+        Ok(g) => g,
+        Err(_) => return,
+    };
+    let it = match guard.as_mut() {
+        Some(it) => it,
+        None => return,
+    };
+    let poll_no = {
+        let mut o = rt.o.borrow_mut();
+        o.polls += 1;
+        o.polls
+    };
+    rt.stub.borrow_mut().cur_poll = poll_no;
+    let r = catch_unwind(AssertUnwindSafe(|| it.nth0()));
+    drop(guard);
+    let mut o = rt.o.borrow_mut();
+    let was_ended = o.err_seen || o.done_seen;
+    let ret = match r {
+        Ok(Some(Item::Ok { t, .. })) => {
+            judge_ok(rt, ctx, &mut o);
+            PollRet::Ok(t)
+        }
+        Ok(Some(Item::Err(e))) => judge_err(rt, ctx, &e, &mut o),
+        Ok(None) => {
+            if was_ended {
+                o.extra_none += 1;
+            }
+            judge_none(rt, ctx, &mut o);
+            PollRet::None
+        }
+        Err(p) => handle_panic(rt, ctx, &mut o, p),
+    };
+    if was_ended {
+        o.polls_after_end += 1;
+    }
+    update_driving(rt, ctx, &mut o);
+    drop(o);
+    ctx.log.borrow_mut().push(Event::Poll { inst: rt.idx, poll: poll_no, ret });
+}
+
+/// `it.by_ref().fold((), |_, item| ...)`: consumes every item up to the first `None`,
+/// including whatever follows an `Err`; afterwards the consumer polls one at a time.
+fn fold_once(rt: &Rc<InstRt>, ctx: &Rc<Ctx>) {
+    let ended = {
+        let o = rt.o.borrow();
+        o.err_seen || o.done_seen
+    };
+    if ended {
+        poll_once(rt, ctx);
+        return;
+    }
+    let mut guard = rt.iter.borrow_mut();
+    let it = match guard.as_mut() {
+        Some(it) => it,
+        None => return,
+    };
+    {
+        let next_poll = rt.o.borrow().polls + 1;
+        rt.stub.borrow_mut().cur_poll = next_poll;
+    }
+    let max_polls = rt.max_polls;
+    let r = {
+        let rt2 = rt.clone();
+        let ctx2 = ctx.clone();
+        catch_unwind(AssertUnwindSafe(move || {
+            it.fold_all(&mut |item| {
+                let mut o = rt2.o.borrow_mut();
+                o.polls += 1;
+                let poll_no = o.polls;
+                let was_ended = o.err_seen || o.done_seen;
+                let ret = match item {
+                    Item::Ok { t, .. } => {
+                        judge_ok(&rt2, &ctx2, &mut o);
+                        PollRet::Ok(t)
+                    }
+                    Item::Err(e) => judge_err(&rt2, &ctx2, &e, &mut o),
+                };
+                if was_ended {
+                    o.polls_after_end += 1;
+                }
+                let over = o.polls > max_polls + 64 || ctx2.violated();
+                drop(o);
+                rt2.stub.borrow_mut().cur_poll = poll_no + 1;
+                ctx2.log.borrow_mut().push(Event::Poll { inst: rt2.idx, poll: poll_no, ret });
+                if over {
+                    // an iterator that never ends would make fold() run forever
+                    std::panic::panic_any(HarnessAbort);
+                }
+            })
+        }))
+    };
+    drop(guard);
+    let mut o = rt.o.borrow_mut();
+    match r {
+        Ok(()) => {
+            // fold returned: the iterator yielded None
+            o.polls += 1;
+            let poll_no = o.polls;
+            let was_ended = o.err_seen || o.done_seen;
+            if was_ended {
+                o.extra_none += 1;
+                o.polls_after_end += 1;
+            }
+            judge_none(rt, ctx, &mut o);
+            update_driving(rt, ctx, &mut o);
+            drop(o);
+            ctx.log.borrow_mut().push(Event::Poll { inst: rt.idx, poll: poll_no, ret: PollRet::None });
+        }
+        Err(p) => {
+            let ret = handle_panic(rt, ctx, &mut o, p);
+            let poll_no = o.polls + 1;
+            drop(o);
+            ctx.log.borrow_mut().push(Event::Poll { inst: rt.idx, poll: poll_no, ret });
+        }
+    }
 }
 
 /// `for item in it.by_ref().take(n)`
@@ -729,11 +894,13 @@ pub struct ExecOpts {
     pub rec_polls: bool,
     /// also run every instance of a multi-instance run alone and compare (clause F5)
     pub check_isolation: bool,
+    /// record the sequence of items next() returned (shadow runs of adapter drives)
+    pub rec_items: bool,
 }
 
 impl Default for ExecOpts {
     fn default() -> Self {
-        ExecOpts { record: false, keep_tail: 0, rec_polls: false, check_isolation: true }
+        ExecOpts { record: false, keep_tail: 0, rec_polls: false, check_isolation: true, rec_items: false }
     }
 }
 
@@ -852,13 +1019,265 @@ fn empty_summary() -> InstSummary {
         hook_reads: 0,
         poll_calls: Vec::new(),
         poll_kinds: Vec::new(),
+        items: Vec::new(),
+        adapter_mismatch_no_fault: false,
         fp: 0,
+    }
+}
+
+/// What a `next()`-driven shadow run of the same instance returned, item by item.
+#[derive(Clone, Debug, PartialEq)]
+pub enum ItemRec {
+    Ok(u64),
+    Err(ErrClass, Vec<u64>),
+    None,
+}
+
+fn rec_of(ret: &PollRet) -> ItemRec {
+    match ret {
+        PollRet::Ok(t) => ItemRec::Ok(t.to_bits()),
+        PollRet::Err(c, tags) => ItemRec::Err(*c, tags.iter().map(|t| crate::stub::tag_call(*t)).collect()),
+        _ => ItemRec::None,
+    }
+}
+
+/// Reference model of the provided `Iterator` methods in terms of `next()`: the shadow sequence
+/// is what `next()` returns call after call (None for ever once the recording is over).
+struct RefIter<'a> {
+    items: &'a [ItemRec],
+    pos: usize,
+}
+
+impl<'a> RefIter<'a> {
+    fn next(&mut self) -> ItemRec {
+        let r = self.items.get(self.pos).cloned().unwrap_or(ItemRec::None);
+        self.pos += 1;
+        r
+    }
+    /// `Iterator::nth(m)`: advance by m (stopping at the first None), then next()
+    fn nth(&mut self, m: usize) -> ItemRec {
+        for _ in 0..m {
+            if self.next() == ItemRec::None {
+                return ItemRec::None;
+            }
+        }
+        self.next()
+    }
+}
+
+/// Drive an instance through an `Iterator` adapter method (`nth(m)` with m >= 1, `count()`,
+/// `last()`) and compare with what the method's provided implementation would return over
+/// `next()`. Such methods discard items, so the online oracle cannot see an `Err` they skip;
+/// the comparison with the reference model can. Only disagreements at or after a fired fault
+/// are C06 matters.
+fn adapter_once(rt: &Rc<InstRt>, ctx: &Rc<Ctx>, drive: Drive) {
+    let shadow = match rt.shadow.as_ref() {
+        Some(s) => s,
+        None => {
+            rt.done_driving.set(true);
+            return;
+        }
+    };
+    let mut guard = rt.iter.borrow_mut();
+    let fired_before = !rt.stub.borrow().fired.is_empty();
+    let mut refit = RefIter { items: shadow, pos: rt.cursor.get() };
+    let poll_no = {
+        let mut o = rt.o.borrow_mut();
+        o.polls += 1;
+        o.polls
+    };
+    rt.stub.borrow_mut().cur_poll = poll_no;
+    let (expected, got_r): (ItemRec, Result<ItemRec, Box<dyn std::any::Any + Send>>) = match drive {
+        Drive::NthSkip(m) => {
+            let it = match guard.as_mut() {
+                Some(it) => it,
+                None => return,
+            };
+            let exp = refit.nth(m as usize);
+            let got = catch_unwind(AssertUnwindSafe(|| it.nth_m(m as usize)));
+            (exp, got.map(|g| match g {
+                Some(Item::Ok { t, .. }) => ItemRec::Ok(t.to_bits()),
+                Some(Item::Err(e)) => {
+                    let f = scan_error(&e);
+                    ItemRec::Err(ErrClass::of(&e), f.all_tags().iter().map(|t| crate::stub::tag_call(*t)).collect())
+                }
+                None => ItemRec::None,
+            }))
+        }
+        Drive::Count => {
+            let it = match guard.take() {
+                Some(it) => it,
+                None => return,
+            };
+            let mut n = 0u64;
+            while refit.next() != ItemRec::None {
+                n += 1;
+            }
+            let got = catch_unwind(AssertUnwindSafe(move || it.count_all()));
+            (ItemRec::Ok(n), got.map(|c| ItemRec::Ok(c as u64)))
+        }
+        _ => {
+            let it = match guard.take() {
+                Some(it) => it,
+                None => return,
+            };
+            let mut last = ItemRec::None;
+            loop {
+                let x = refit.next();
+                if x == ItemRec::None {
+                    break;
+                }
+                last = x;
+            }
+            let got = catch_unwind(AssertUnwindSafe(move || it.last_item()));
+            (last, got.map(|g| match g {
+                Some(Item::Ok { t, .. }) => ItemRec::Ok(t.to_bits()),
+                Some(Item::Err(e)) => {
+                    let f = scan_error(&e);
+                    ItemRec::Err(ErrClass::of(&e), f.all_tags().iter().map(|t| crate::stub::tag_call(*t)).collect())
+                }
+                None => ItemRec::None,
+            }))
+        }
+    };
+    drop(guard);
+    rt.cursor.set(refit.pos);
+    let fired_now = !rt.stub.borrow().fired.is_empty();
+    let mut o = rt.o.borrow_mut();
+    let ret = match got_r {
+        Ok(got) => {
+            let ret = match &got {
+                ItemRec::Ok(bits) => PollRet::Ok(f64::from_bits(*bits)),
+                ItemRec::Err(c, tags) => PollRet::Err(*c, tags.clone()),
+                ItemRec::None => PollRet::None,
+            };
+            if got != expected {
+                if fired_before || fired_now || matches!(expected, ItemRec::Err(..)) {
+                    let class = if matches!(got, ItemRec::Ok(_)) && matches!(drive, Drive::NthSkip(_)) { "item-after-err" } else { "adapter-mismatch" };
+                    ctx.violate(
+                        class,
+                        rt.idx,
+                        format!(
+                            "{} returned {:?} where a consumer calling next() gets {:?}: after the derivative failed, this way of consuming the iterator does not see the iteration end with that one Err",
+                            drive.name(), got, expected
+                        ),
+                    );
+                } else {
+                    // a disagreement with no fault involved is outside C06: stop, count
+                    o.adapter_mismatch_no_fault = true;
+                }
+                rt.done_driving.set(true);
+            }
+            match got {
+                ItemRec::Ok(_) if matches!(drive, Drive::NthSkip(_)) => o.ok_items += 1,
+                ItemRec::Err(..) => {
+                    o.err_seen = true;
+                    if o.ended_by.is_none() {
+                        o.ended_by = Some(if fired_now { EndedBy::UserErr } else { EndedBy::Done });
+                    }
+                }
+                ItemRec::None => {
+                    o.done_seen = true;
+                    if o.ended_by.is_none() {
+                        o.ended_by = Some(EndedBy::Done);
+                    }
+                }
+                _ => {}
+            }
+            ret
+        }
+        Err(p) => handle_panic(rt, ctx, &mut o, p),
+    };
+    let ended = o.err_seen || o.done_seen;
+    if !matches!(drive, Drive::NthSkip(_)) {
+        rt.done_driving.set(true);
+    } else if ended {
+        o.polls_after_end += 1;
+        if o.polls_after_end > rt.extra_polls {
+            rt.done_driving.set(true);
+        }
+    }
+    if o.polls >= rt.max_polls {
+        rt.done_driving.set(true);
+    }
+    drop(o);
+    ctx.log.borrow_mut().push(Event::Poll { inst: rt.idx, poll: poll_no, ret });
+}
+
+/// One action of the simulated consumer on one instance.
+fn drive_once(rt: &Rc<InstRt>, ctx: &Rc<Ctx>, drive: Drive) {
+    match drive {
+        Drive::Poll => poll_once(rt, ctx),
+        Drive::CollectVec => collect_once(rt, ctx, true),
+        Drive::ByRefCollect => {
+            let started = {
+                let o = rt.o.borrow();
+                o.err_seen || o.done_seen
+            };
+            if started {
+                poll_once(rt, ctx)
+            } else {
+                collect_once(rt, ctx, false)
+            }
+        }
+        Drive::TakeBursts(k) => burst_once(rt, ctx, k.max(1) as usize),
+        Drive::Nth0 => nth_once(rt, ctx),
+        Drive::Fold => fold_once(rt, ctx),
+        Drive::PollThenCollect => {
+            let ended = {
+                let o = rt.o.borrow();
+                o.err_seen || o.done_seen
+            };
+            if ended {
+                collect_once(rt, ctx, true)
+            } else {
+                poll_once(rt, ctx)
+            }
+        }
+        Drive::NthSkip(_) | Drive::Count | Drive::Last => adapter_once(rt, ctx, drive),
     }
 }
 
 /// Execute one run. Pure function of `spec` (and of the code under test).
 pub fn execute(spec: &RunSpec, budgets: &[Budget], opts: &ExecOpts) -> RunResult {
     let n = spec.instances.len();
+
+    // adapter drives: a next()-driven shadow run of the same instance is the reference
+    let mut shadows: Vec<Option<Vec<ItemRec>>> = vec![None; n];
+    let mut shadow_violation: Option<Violation> = None;
+    for i in 0..n {
+        if matches!(spec.instances[i].drive, Drive::NthSkip(_) | Drive::Count | Drive::Last) {
+            let s = RunSpec {
+                instances: vec![InstSpec { nested_every: 0, drive: Drive::Poll, ..spec.instances[i].clone() }],
+                sched_seed: 0,
+                phased: false,
+                solo_baselines: true,
+            };
+            let b = [budgets.get(i).copied().unwrap_or(Budget::REFERENCE)];
+            let r = execute(&s, &b, &ExecOpts { record: false, keep_tail: 0, rec_polls: false, check_isolation: false, rec_items: true });
+            if let (Some(v), None) = (r.violation, shadow_violation.as_ref()) {
+                shadow_violation = Some(Violation { inst: i as u32, ..v });
+            }
+            shadows[i] = Some(r.insts[0].items.clone());
+        }
+    }
+
+    // F5 baselines, taken before the joint run: every instance alone
+    let mut solo: Vec<(u64, bool)> = Vec::new();
+    if n > 1 && opts.check_isolation && spec.solo_baselines {
+        for i in 0..n {
+            let s = RunSpec {
+                instances: vec![InstSpec { nested_every: 0, ..spec.instances[i].clone() }],
+                sched_seed: 0,
+                phased: false,
+                solo_baselines: true,
+            };
+            let b = [budgets.get(i).copied().unwrap_or(Budget::REFERENCE)];
+            let r = execute(&s, &b, &ExecOpts { record: false, keep_tail: 0, rec_polls: false, check_isolation: false, rec_items: false });
+            solo.push((r.insts[0].fp, r.violation.is_some()));
+        }
+    }
+
     let ctx = Rc::new(Ctx {
         log: RefCell::new(RunLog {
             seq: 0,
@@ -872,8 +1291,8 @@ pub fn execute(spec: &RunSpec, budgets: &[Budget], opts: &ExecOpts) -> RunResult
     let mut summaries: Vec<InstSummary> = (0..n).map(|_| empty_summary()).collect();
     let mut rts: Vec<Rc<InstRt>> = Vec::with_capacity(n);
 
-    // phase 1: the simulated caller builds every instance
-    for (i, ispec) in spec.instances.iter().enumerate() {
+    let build = |i: usize, summaries: &mut Vec<InstSummary>| -> Rc<InstRt> {
+        let ispec = &spec.instances[i];
         let budget = budgets.get(i).copied().unwrap_or(Budget::REFERENCE);
         let stub = Rc::new(RefCell::new(StubShared {
             inst: i as u32,
@@ -895,7 +1314,7 @@ pub fn execute(spec: &RunSpec, budgets: &[Budget], opts: &ExecOpts) -> RunResult
             build_instance(i as u32, ispec, hooks, &ctx, &mut summaries[i])
         };
         summaries[i].built = iter.is_some();
-        let rt = Rc::new(InstRt {
+        Rc::new(InstRt {
             idx: i as u32,
             payload: ispec.payload,
             done_driving: Cell::new(iter.is_none()),
@@ -905,54 +1324,58 @@ pub fn execute(spec: &RunSpec, budgets: &[Budget], opts: &ExecOpts) -> RunResult
             max_polls: budget.max_polls,
             extra_polls: ispec.extra_polls as u64,
             rec_polls: opts.rec_polls,
-        });
-        rts.push(rt);
-    }
-    // nested targets: instance i may advance instance i+1 from inside its derivative
-    for i in 0..n {
-        if spec.instances[i].nested_every > 0 && i + 1 < n && spec.instances[i + 1].drive == Drive::Poll {
-            rts[i].stub.borrow_mut().nested_target = Some(rts[i + 1].clone());
-        }
-    }
+            rec_items: opts.rec_items,
+            shadow: shadows[i].clone(),
+            cursor: Cell::new(0),
+        })
+    };
 
-    // phase 2: the simulated consumer drives the iterators
-    let mut sched = SplitMix64::new(spec.sched_seed);
-    let mut rr = 0usize;
-    let mut guard_steps: u64 = 0;
-    while !ctx.violated() {
-        let live: Vec<usize> = (0..n).filter(|&i| !rts[i].done_driving.get()).collect();
-        if live.is_empty() {
-            break;
-        }
-        let pick = if spec.sched_seed == 0 {
-            rr += 1;
-            live[rr % live.len()]
-        } else {
-            live[sched.below(live.len() as u64) as usize]
-        };
-        let rt = &rts[pick];
-        match spec.instances[pick].drive {
-            Drive::Poll => poll_once(rt, &ctx),
-            Drive::CollectVec => collect_once(rt, &ctx, true),
-            Drive::ByRefCollect => {
-                let started = {
-                    let o = rt.o.borrow();
-                    o.err_seen || o.done_seen
-                };
-                if started {
-                    poll_once(rt, &ctx)
-                } else {
-                    collect_once(rt, &ctx, false)
-                }
+    if spec.phased {
+        // one instance after the other: built, driven to its end, and only then the next one
+        for i in 0..n {
+            let rt = build(i, &mut summaries);
+            let mut guard_steps: u64 = 0;
+            while !ctx.violated() && !rt.done_driving.get() && guard_steps < 10_000_000 {
+                drive_once(&rt, &ctx, spec.instances[i].drive);
+                guard_steps += 1;
             }
-            Drive::TakeBursts(k) => burst_once(rt, &ctx, k.max(1) as usize),
+            rts.push(rt);
         }
-        guard_steps += 1;
-        if guard_steps > 10_000_000 {
-            break;
+    } else {
+        // phase 1: the simulated caller builds every instance
+        for i in 0..n {
+            let rt = build(i, &mut summaries);
+            rts.push(rt);
+        }
+        // nested targets: instance i may advance instance i+1 from inside its derivative
+        for i in 0..n {
+            if spec.instances[i].nested_every > 0 && i + 1 < n && spec.instances[i + 1].drive == Drive::Poll {
+                rts[i].stub.borrow_mut().nested_target = Some(rts[i + 1].clone());
+            }
+        }
+        // phase 2: the simulated consumer drives the iterators
+        let mut sched = SplitMix64::new(spec.sched_seed);
+        let mut rr = 0usize;
+        let mut guard_steps: u64 = 0;
+        while !ctx.violated() {
+            let live: Vec<usize> = (0..n).filter(|&i| !rts[i].done_driving.get()).collect();
+            if live.is_empty() {
+                break;
+            }
+            let pick = if spec.sched_seed == 0 {
+                rr += 1;
+                live[rr % live.len()]
+            } else {
+                live[sched.below(live.len() as u64) as usize]
+            };
+            drive_once(&rts[pick], &ctx, spec.instances[pick].drive);
+            guard_steps += 1;
+            if guard_steps > 10_000_000 {
+                break;
+            }
         }
     }
-    // break the Rc cycle-free links so that everything is dropped here
+    // drop the links between instances so that everything is freed here
     for rt in &rts {
         rt.stub.borrow_mut().nested_target = None;
     }
@@ -974,6 +1397,8 @@ pub fn execute(spec: &RunSpec, budgets: &[Budget], opts: &ExecOpts) -> RunResult
         sm.surfaced_not_first = o.surfaced_not_first;
         sm.poll_calls = o.poll_calls.clone();
         sm.poll_kinds = o.poll_kinds.clone();
+        sm.items = o.items.clone();
+        sm.adapter_mismatch_no_fault = o.adapter_mismatch_no_fault;
         sm.ended_by = if !sm.built {
             EndedBy::NotBuilt
         } else if let Some(e) = o.ended_by {
@@ -985,6 +1410,9 @@ pub fn execute(spec: &RunSpec, budgets: &[Budget], opts: &ExecOpts) -> RunResult
         };
     }
     let mut violation = ctx.violation.borrow_mut().take();
+    if violation.is_none() {
+        violation = shadow_violation;
+    }
     let (fp, inst_fps, events, seq) = {
         let mut log = ctx.log.borrow_mut();
         (log.fp.0, log.inst_fp.iter().map(|f| f.0).collect::<Vec<_>>(), log.events.take(), log.seq)
@@ -994,34 +1422,46 @@ pub fn execute(spec: &RunSpec, budgets: &[Budget], opts: &ExecOpts) -> RunResult
     }
     drop(rts);
 
-    // F5: instances share nothing, so each must behave exactly as it does alone
-    if violation.is_none() && n > 1 && opts.check_isolation {
+    // F5: instances share nothing, so the history of each (its builder calls, the arguments
+    // and results of its derivative calls, the results of its next() calls) must be exactly
+    // the history it has alone
+    if violation.is_none() && !solo.is_empty() {
         for i in 0..n {
-            let solo = RunSpec {
-                instances: vec![InstSpec { nested_every: 0, ..spec.instances[i].clone() }],
-                sched_seed: 0,
-            };
-            let b = [budgets.get(i).copied().unwrap_or(Budget::REFERENCE)];
-            let r = execute(&solo, &b, &ExecOpts { record: false, keep_tail: 0, rec_polls: false, check_isolation: false });
-            // instance numbers enter the tags, so compare what is independent of them
-            let a = &summaries[i];
-            let s = &r.insts[0];
-            let same = a.calls == s.calls
-                && a.polls == s.polls
-                && a.ok_items == s.ok_items
-                && a.fired == s.fired
-                && a.ended_by == s.ended_by
-                && r.violation.is_none();
-            if !same {
+            let (solo_fp, solo_violated) = solo[i];
+            if solo_violated || solo_fp != summaries[i].fp {
+                let a = &summaries[i];
                 violation = Some(Violation {
                     class: "cross-talk",
                     inst: i as u32,
                     detail: format!(
-                        "instance {} behaves differently next to other instances than alone: calls {} vs {}, polls {} vs {}, Ok items {} vs {}, ended {:?} vs {:?}",
-                        i, a.calls, s.calls, a.polls, s.polls, a.ok_items, s.ok_items, a.ended_by, s.ended_by
+                        "instance {} ({}) has a different history next to the other instances of the run than alone (history fingerprint {:016x} vs {:016x}; here: {} derivative calls, {} next() calls, {} Ok items, ended {:?}): solver instances influence each other",
+                        i, spec.instances[i].kind.name(), a.fp, solo_fp, a.calls, a.polls, a.ok_items, a.ended_by
                     ),
                 });
                 break;
+            }
+        }
+    }
+
+    // ... and two instances with identical specifications must have identical histories
+    if violation.is_none() && n > 1 && opts.check_isolation {
+        let plain = |i: usize| {
+            spec.instances[i].nested_every == 0 && (i == 0 || spec.instances[i - 1].nested_every == 0 || spec.phased)
+        };
+        'outer: for i in 0..n {
+            for j in (i + 1)..n {
+                if plain(i) && plain(j) && spec.instances[i] == spec.instances[j] && summaries[i].fp != summaries[j].fp {
+                    let (a, b) = (&summaries[i], &summaries[j]);
+                    violation = Some(Violation {
+                        class: "cross-talk",
+                        inst: j as u32,
+                        detail: format!(
+                            "instances {} and {} of the run have identical specifications ({}) but different histories (fingerprints {:016x} vs {:016x}; {} vs {} derivative calls, {} vs {} Ok items, ended {:?} vs {:?}): a solver instance is influenced by what other instances did before it",
+                            i, j, spec.instances[i].kind.name(), a.fp, b.fp, a.calls, b.calls, a.ok_items, b.ok_items, a.ended_by, b.ended_by
+                        ),
+                    });
+                    break 'outer;
+                }
             }
         }
     }
